@@ -83,11 +83,18 @@ def extra(binary, build, tier, rng):
             ok = True
             pv = Prober(binary, lambda pair: mk2(pair[0], pair[1]), lambda res: (parse_ok(res) or ["?"])[0])
             for first, last, t in runs:
-                for _ in range(4):
+                for _ in range(64):        # a periodic (non-monotone) dependence on the first word must not slip through: 64 threshold probes per run
                     w1 = first + rng.below(last - first + 1)
+                    # at the threshold itself: the last true and the first false second word, and a random one
                     w2 = rng.below(B)
-                    if pv.one((w1, w2)) != ("1" if w2 < t else "0"):
-                        ok = False
+                    checks = [(w2, "1" if w2 < t else "0")]
+                    if t > 0:
+                        checks.append((t - 1, "1"))
+                    if t < B:
+                        checks.append((t, "0"))
+                    for x, want in checks:
+                        if pv.one((w1, x)) != want:
+                            ok = False
             calls += pv.calls
             if not ok:
                 yield {"kind": "note", "text": "chance(p=%#x): outcome is not monotone in the words - measure inconclusive" % pb}
